@@ -125,6 +125,14 @@ type Outcome struct {
 	SwitchAt   map[[2]int]int
 	FaultFired map[string]int
 	SimTime    time.Duration
+	// Ended: when (simulated time) each task that finished did so.
+	Ended []TaskEnd
+}
+
+// TaskEnd is the end of a task.
+type TaskEnd struct {
+	Task string
+	At   time.Duration
 }
 
 // Sim is one simulated execution.
@@ -399,6 +407,9 @@ func (s *Sim) Run(root func()) *Outcome {
 		case stCrashed:
 			out.Crashes = append(out.Crashes, Crash{Task: t.name, Value: t.crashVal, Stack: t.crashStack})
 		}
+		if t.ended {
+			out.Ended = append(out.Ended, TaskEnd{Task: t.name, At: t.endedAt})
+		}
 	}
 	if s.cfg.Replay != nil && !s.cfg.Lenient && !s.cfg.Cycle && s.diverged == "" && s.rpos < len(s.cfg.Replay) && !out.Budget {
 		out.Diverged = fmt.Sprintf("run used %d of %d tape entries", s.rpos, len(s.cfg.Replay))
@@ -578,6 +589,9 @@ func (s *Sim) runTask(t *Task, counted bool) {
 func (s *Sim) afterRun(t *Task) {
 	for i := 0; i < len(t.notes); i++ {
 		s.applyNote(t, &t.notes[i])
+	}
+	if (t.state == stDone || t.state == stCrashed) && !t.ended {
+		t.ended, t.endedAt = true, s.now
 	}
 	t.notes = t.notes[:0]
 	if t == s.heldTask {
